@@ -22,8 +22,9 @@ TEXTS = {
  "C01": ("theorems (all finite histories over any number of live objects, by induction over the operation list of the heap model): "
          "a write through a handle changes only that object and the table holding it (frame), producers change no existing object, a "
          "refused or failed vector write changes nothing, columns belong to exactly one table; " + CORR + " after EVERY step of random "
-         "and planted histories (state-level refinement: values, names, dtypes, storage identities, registry, memos)",
-         TRUST.format("") + "Rows are views, checked by the oracle (held rows) only; element values are None / ints / integral floats.",
+         "and planted histories (state-level refinement: values, names, dtypes, storage identities, registry, memos)"
+         + TR.format("alias_tracker.py by state passing - EqAlias.v, 7 theorems: a refinement of the model's registry for every liveness predicate"),
+         TRUST.format(" and the translator") + "Rows are views, checked by the oracle (held rows) only; element values are None / ints / integral floats.",
          "Rocq proof: ownership + frame invariants by induction over histories of an executable heap model; state-level refinement check against the implementation"),
  "C02": ("theorems (all histories of the heap model): every table stays rectangular under every operation, failed ones included; ragged "
          "input is refused; cells of every new table (copy / selection / stacking / row append) are those of its sources; row views = "
@@ -101,9 +102,11 @@ TEXTS = {
          "the registry's live view is exactly the sharing relation in every reachable state; a write is refused only while another live "
          "object holds the same non-empty storage, exactly characterised; sole owners are always writable; no write leaks; derived vectors "
          "and the columns of every new table own fresh storage (step_d) and are writable at once; " + CORR + " after every step of random and "
-         "planted histories with explicit collection schedules; the oracle finds sharers through gc.get_objects()",
-         TRUST.format("") + "Weak references die exactly at collection; id() of a live object is unique (CPython).",
-         "Rocq proof: registry invariant by induction over histories with the allocator's identity choices as inputs; state-level refinement check"),
+         "planted histories with explicit collection schedules; the oracle finds sharers through gc.get_objects()"
+         + TR.format("alias_tracker.py (register, unregister, check_writable, the dead-reference sweep) by state passing - EqAlias.v, 7 theorems: "
+                     "each operation refines the model's for EVERY liveness predicate; refused iff two live owners of non-empty storage"),
+         TRUST.format(" and the translator") + "Weak references die exactly at collection; id() of a live object is unique (CPython).",
+         "Rocq proof: registry invariant by induction over histories with the allocator's identity choices as inputs; the tracker regenerated from source and proved to refine the model's registry; state-level refinement check"),
  "C16": ("theorems (all histories): every memo equals the fingerprint of the current contents (vectors and tables) after any write path, "
          "so fingerprint() = that of a fresh object; read-only operations keep it; a write between values with hashes different mod 2^61-1 "
          "changes it, order matters; the unconditional sensitivity statement is REFUTED by a witness (known finding KF1); " + CORR
